@@ -49,63 +49,39 @@ pub open spec fn heads_fold(s: Seq<RecId>, m: Map<RecId, RecVal>, n: int) -> Map
     if n <= 0 { Map::empty() } else { head_step(heads_fold(s, m, n - 1), s[n - 1], m[s[n - 1]]) }
 }
 
-/// what the fold holds after n rows: per (ns, author) the row j with the greatest timestamp, the later one on ties
-pub open spec fn fold_char(h: Map<LatestKey, LatestVal>, s: Seq<RecId>, m: Map<RecId, RecVal>, n: int) -> bool {
-    &&& (forall|k: LatestKey| #[trigger] h.contains_key(k) <==> exists|j: int| 0 <= j < n && lk_of(#[trigger] s[j]) == k)
-    &&& (forall|k: LatestKey| #[trigger] h.contains_key(k) ==> exists|j: int| 0 <= j < n && lk_of(#[trigger] s[j]) == k
-            && h[k] == (LatestVal { ts: m[s[j]].ts, key: s[j].key })
-            && (forall|i: int| 0 <= i < n && lk_of(#[trigger] s[i]) == k ==> m[s[i]].ts < m[s[j]].ts || (m[s[i]].ts == m[s[j]].ts && i <= j)))
+/// index of the row that the fold keeps for `k` among the first n rows (-1: none): greatest timestamp, the later row on ties
+pub open spec fn head_idx(s: Seq<RecId>, m: Map<RecId, RecVal>, n: int, k: LatestKey) -> int
+    decreases n
+{
+    if n <= 0 { -1 } else {
+        let j0 = head_idx(s, m, n - 1, k);
+        if lk_of(s[n - 1]) == k && (j0 < 0 || m[s[n - 1]].ts >= m[s[j0]].ts) { n - 1 } else { j0 }
+    }
 }
 
-pub proof fn lemma_heads_fold_char(s: Seq<RecId>, m: Map<RecId, RecVal>, n: int)
+pub proof fn lemma_head_idx(s: Seq<RecId>, m: Map<RecId, RecVal>, n: int, k: LatestKey)
     requires 0 <= n <= s.len()
-    ensures fold_char(heads_fold(s, m, n), s, m, n)
+    ensures ({
+        let j = head_idx(s, m, n, k);
+        let h = heads_fold(s, m, n);
+        &&& -1 <= j < n
+        &&& (j < 0 ==> !h.contains_key(k) && (forall|i: int| 0 <= i < n ==> lk_of(#[trigger] s[i]) != k))
+        &&& (j >= 0 ==> h.contains_key(k) && lk_of(s[j]) == k && h[k] == (LatestVal { ts: m[s[j]].ts, key: s[j].key })
+                && (forall|i: int| 0 <= i < n && lk_of(#[trigger] s[i]) == k ==> m[s[i]].ts < m[s[j]].ts || (m[s[i]].ts == m[s[j]].ts && i <= j)))
+    })
     decreases n
 {
     if n > 0 {
-        lemma_heads_fold_char(s, m, n - 1);
+        lemma_head_idx(s, m, n - 1, k);
+        let j0 = head_idx(s, m, n - 1, k);
         let h0 = heads_fold(s, m, n - 1);
-        let h = heads_fold(s, m, n);
         let id = s[n - 1];
-        let kk = lk_of(id);
-        assert forall|k: LatestKey| #[trigger] h.contains_key(k) <==> exists|j: int| 0 <= j < n && lk_of(#[trigger] s[j]) == k by {
-            if h.contains_key(k) {
-                if k == kk { assert(lk_of(s[n - 1]) == k); }
-                else { assert(h0.contains_key(k)); let j = choose|j: int| 0 <= j < n - 1 && lk_of(#[trigger] s[j]) == k; assert(lk_of(s[j]) == k); }
-            }
-            if exists|j: int| 0 <= j < n && lk_of(#[trigger] s[j]) == k {
-                let j = choose|j: int| 0 <= j < n && lk_of(#[trigger] s[j]) == k;
-                if j < n - 1 { assert(lk_of(s[j]) == k); assert(h0.contains_key(k)); }
-            }
-        }
-        assert forall|k: LatestKey| #[trigger] h.contains_key(k) implies exists|j: int| 0 <= j < n && lk_of(#[trigger] s[j]) == k
-            && h[k] == (LatestVal { ts: m[s[j]].ts, key: s[j].key })
-            && (forall|i: int| 0 <= i < n && lk_of(#[trigger] s[i]) == k ==> m[s[i]].ts < m[s[j]].ts || (m[s[i]].ts == m[s[j]].ts && i <= j)) by {
-            if k != kk {
-                assert(h0.contains_key(k));
-                let j = choose|j: int| 0 <= j < n - 1 && lk_of(#[trigger] s[j]) == k
-                    && h0[k] == (LatestVal { ts: m[s[j]].ts, key: s[j].key })
-                    && (forall|i: int| 0 <= i < n - 1 && lk_of(#[trigger] s[i]) == k ==> m[s[i]].ts < m[s[j]].ts || (m[s[i]].ts == m[s[j]].ts && i <= j));
-                assert(lk_of(s[j]) == k && h[k] == h0[k]);
-            } else if h0.contains_key(kk) && !(m[id].ts >= h0[kk].ts) {
-                let j = choose|j: int| 0 <= j < n - 1 && lk_of(#[trigger] s[j]) == k
-                    && h0[k] == (LatestVal { ts: m[s[j]].ts, key: s[j].key })
-                    && (forall|i: int| 0 <= i < n - 1 && lk_of(#[trigger] s[i]) == k ==> m[s[i]].ts < m[s[j]].ts || (m[s[i]].ts == m[s[j]].ts && i <= j));
-                assert(lk_of(s[j]) == k && h[k] == h0[k]);
-            } else {
-                let j = n - 1;
-                assert(lk_of(s[j]) == k);
-                if h0.contains_key(kk) {
-                    let j0 = choose|j0: int| 0 <= j0 < n - 1 && lk_of(#[trigger] s[j0]) == k
-                        && h0[k] == (LatestVal { ts: m[s[j0]].ts, key: s[j0].key })
-                        && (forall|i: int| 0 <= i < n - 1 && lk_of(#[trigger] s[i]) == k ==> m[s[i]].ts < m[s[j0]].ts || (m[s[i]].ts == m[s[j0]].ts && i <= j0));
-                    assert(lk_of(s[j0]) == k);
-                } else {
-                    assert forall|i: int| 0 <= i < n - 1 implies lk_of(#[trigger] s[i]) != k by {
-                        if lk_of(s[i]) == k { assert(h0.contains_key(k)); }
-                    }
-                }
-            }
+        assert(heads_fold(s, m, n) == head_step(h0, id, m[id]));
+        if lk_of(id) == k {
+            if j0 >= 0 { assert(h0[k].ts == m[s[j0]].ts); }
+        } else {
+            assert(heads_fold(s, m, n).contains_key(k) == h0.contains_key(k));
+            if h0.contains_key(k) { assert(heads_fold(s, m, n)[k] == h0[k]); }
         }
     }
 }
@@ -117,13 +93,14 @@ pub proof fn lemma_fold_is_heads(s: Seq<RecId>, m: Map<RecId, RecVal>)
 {
     let n = s.len() as int;
     let h = heads_fold(s, m, n);
-    lemma_heads_fold_char(s, m, n);
     assert forall|k: LatestKey| #[trigger] h.contains_key(k) <==> exists|id: RecId| #[trigger] m.contains_key(id) && lk_of(id) == k by {
-        if h.contains_key(k) { let j = choose|j: int| 0 <= j < n && lk_of(#[trigger] s[j]) == k; assert(m.contains_key(s[j])); }
+        lemma_head_idx(s, m, n, k);
+        let j = head_idx(s, m, n, k);
+        if h.contains_key(k) { assert(m.contains_key(s[j])); }
         if exists|id: RecId| #[trigger] m.contains_key(id) && lk_of(id) == k {
             let id = choose|id: RecId| #[trigger] m.contains_key(id) && lk_of(id) == k;
-            let j = choose|j: int| 0 <= j < n && s[j] == id;
-            assert(lk_of(s[j]) == k);
+            let i = choose|i: int| 0 <= i < n && s[i] == id;
+            assert(lk_of(s[i]) == k);
         }
     }
     assert forall|k: LatestKey| #[trigger] h.contains_key(k) implies ({
@@ -133,9 +110,8 @@ pub proof fn lemma_fold_is_heads(s: Seq<RecId>, m: Map<RecId, RecVal>)
             &&& m[hid].ts == hv.ts
             &&& (forall|id: RecId| #[trigger] m.contains_key(id) && lk_of(id) == k ==> m[id].ts < hv.ts || (m[id].ts == hv.ts && lex_le(id.key, hv.key)))
         }) by {
-        let j = choose|j: int| 0 <= j < n && lk_of(#[trigger] s[j]) == k
-            && h[k] == (LatestVal { ts: m[s[j]].ts, key: s[j].key })
-            && (forall|i: int| 0 <= i < n && lk_of(#[trigger] s[i]) == k ==> m[s[i]].ts < m[s[j]].ts || (m[s[i]].ts == m[s[j]].ts && i <= j));
+        lemma_head_idx(s, m, n, k);
+        let j = head_idx(s, m, n, k);
         let hv = h[k];
         let hid = RecId { ns: k.ns, author: k.author, key: hv.key };
         assert(hid == s[j]);
